@@ -82,7 +82,12 @@ def copyAt (dst : Bytes) (at_ : Nat) (src : Bytes) : Bytes :=
   dst.take at_ ++ src.take (dst.length - at_) ++ dst.drop (at_ + min src.length (dst.length - at_))
 
 /-- section `i` (`2*seg` bytes) of a buffer -/
-def section (seg : Nat) (buf : Bytes) (i : Nat) : Bytes := (buf.drop (i * (2 * seg))).take (2 * seg)
+def sect (seg : Nat) (buf : Bytes) (i : Nat) : Bytes := (buf.drop (i * (2 * seg))).take (2 * seg)
+
+/-- `n` consecutive pieces of `w` bytes (sequential chunking; linear time) -/
+def chunkList (w : Nat) : Nat → Bytes → List Bytes
+  | 0, _ => []
+  | n + 1, l => l.take w :: chunkList w n (l.drop w)
 
 /-- `Write(b)`; returns the new hasher and the number of bytes accepted. -/
 def Hasher.write (H : Bytes → Bytes) (seg : Nat) (h : Hasher) (b : Bytes) : Hasher × Nat :=
@@ -95,7 +100,8 @@ def Hasher.write (H : Bytes → Bytes) (seg : Nat) (h : Hasher) (b : Bytes) : Ha
   let to0 := size / secsize
   let to_ := if l = mx then to0 - 1 else to0
   -- `for i := from; i < to; i++ { go h.processSection(i, false) }`
-  let spawned := (List.range (to_ - from_)).map (fun j => H (section seg buffer (from_ + j)))
+  -- (sections `from_ … to_-1` of the buffer, i.e. `sect seg buffer (from_ + j)` for `j < to_ - from_`)
+  let spawned := (chunkList secsize (to_ - from_) (buffer.drop (from_ * secsize))).map H
   ({ h with buffer := buffer, size := size, pos := to_, leafs := h.leafs ++ spawned }, l)
 
 /-- `Hash(nil)`: returns the digest and the hasher (whose tree buffer got 64 bytes zeroed). -/
@@ -103,7 +109,7 @@ def Hasher.hash (H : Bytes → Bytes) (seg d : Nat) (h : Hasher) : Bytes × Hash
   if h.size = 0 then (H (h.span ++ zerohash H seg (d + 1)), h)
   else
     let buffer := copyAt h.buffer h.size (zeros (2 * seg))
-    let final := H (section seg buffer h.pos)
+    let final := H (sect seg buffer h.pos)
     let root := (iterUp H seg d 1 (h.leafs ++ [final])).headD []
     (H (h.span ++ root), { h with buffer := buffer })
 
